@@ -27,7 +27,11 @@ META = {
             "regenerated, the model runs `lower` of each call (c01_entry_points_forward_flags: lower = the call as "
             "written; c01_exclusive_any_entry, c01_exactly_once_any_entry), the harness calls value / pointer / "
             "iterator overloads and the ones without template arguments; 'parked' programs keep a consumer / producer "
-            "inside its callback while an exclusive try_push_n / try_pop_n wraps the ring (conservation at quiescence).",
+            "inside its callback while an exclusive try_push_n / try_pop_n wraps the ring (conservation at quiescence).  "
+            "swap / move construction / move assignment: the member pairing of swap is regenerated and "
+            "c01_swap_exchanges_queues proves the destination becomes exactly the source; every fourth schedule of a big "
+            "program first fills the queue (0 / 1 / capacity-1 / capacity elements) and swaps, move-constructs or "
+            "move-assigns it (both call directions), then runs the program on the destination and drains the other queue.",
     "note": "All four schedule-quantified statements are theorems (c01_exclusive, c01_exactly_once incl. conservation at "
             "quiescence, c01_fifo_realtime, c01_try_fail_justified), proved for every usage_ok program / capacity 2^k / thread "
             "count / schedule from the ticket-interval invariant (coq/BQ/BQInv*.v), every theorem 'Closed under the global "
@@ -439,6 +443,14 @@ def run(prop, argv, meta_focus):
             # (as if 32767, 32768 or 65535 turns of the ring had passed): outcomes must not depend on the turn
             if si % 4 == 1:
                 spur |= ([1, 2, 3][(si // 4) % 3]) << 1
+            # every fourth schedule of a big program hands the queue over before the threads start: it is filled with
+            # 1 / capacity / capacity-1 / 0 elements and then swapped, move-constructed or move-assigned (both call
+            # directions); the program runs on the destination, whose content must be what the source held
+            if si % 4 == 3 and nostuck and not any(o[0] in "XY" for t in th for o in t):
+                j = si // 4
+                cap = 1 << k
+                spur |= (1 + j % 4) << 3
+                spur |= [1, cap, max(cap - 1, 0), 0, cap, 1][j % 6] << 6
             if chk.replay:
                 spur = replay_flags
             lines.append("%s %d %d %d %d %s" % (cid, seed, strat, k, spur, model_prog(th)))
